@@ -24,10 +24,19 @@ def _drive(ctx, binary, test, label, env, timeout=2400):
     return out
 
 
+MAX_FAILURES = 4
+
+
 def _validate(ctx, out, label, timeout=3600):
-    return vlib.validate_traces(ctx, out + "/trace.ndjson", TRACE, TCFG, DEPS, label,
-                                classify=vlib.classify_for(ctx.prop), timeout=timeout,
-                                max_failures=4)
+    n = vlib.validate_traces(ctx, out + "/trace.ndjson", TRACE, TCFG, DEPS, label,
+                             classify=vlib.classify_for(ctx.prop), timeout=timeout,
+                             max_failures=MAX_FAILURES)
+    if n >= MAX_FAILURES and not ctx.violations:
+        # validate_traces gives up after MAX_FAILURES rejected traces; if none
+        # of them was a violation the rest of the log was not judged at all
+        raise vlib.Infra("%s: %d traces were rejected without a C13 predicate failing "
+                         "(model non-conformance); the remaining traces were not validated" % (label, n))
+    return n
 
 
 def _behaviours(ctx, num, depth):
